@@ -92,3 +92,15 @@ Theorem c07_helper_sources_are_direct :
   forallb (fun e => negb (String.eqb (dl_file e) "src/system.rs") || deleg_ok e) src_delegations = true
   /\ covers src_delegations "src/system.rs" (value_fns ++ predicate_fns) = true.
 Proof. split; vm_compute; reflexivity. Qed.
+
+(* ---- the identity of re-basing between identical base units rests on the shortcut `if r == l { v }` of change_base, taken on
+   the COEFFICIENTS (never on computed powers, which may overflow or underflow): the model's change_base is the source's
+   (Gen/ConvSrc.v is regenerated from src/system.rs on every run) ---- *)
+From UomV Require Import Model.Conv Model.ConvSrc Gen.ConvSrc Spec.ConvTie.
+Theorem c07_same_base_shortcut_is_the_source :
+  rebase_shape_ok src_change_base = true
+  /\ forall (T : Type) (F : CF T) Ul Ur d v,
+       fold_left (fun acc p => match acc with Some x => eval_rebase_step F src_change_base x p | None => None end)
+                 (combine (combine Ul Ur) d) (Some v)
+       = Some (change_base F Ul Ur d v).
+Proof. exact change_base_is_the_source. Qed.
